@@ -24,7 +24,7 @@
 //  are asserted to be ill-formed by the reference, single-condition sets to violate exactly that condition (else exit 2).
 //  (e) element checks on the pristine object: p < 2^21: ALL integers -2..p+2 against 0 < a < p and a^q = 1 (128-bit modexp,
 //      no GMP), and the number of accepted values must be q; larger p: boundary values, 64 members, 64 non-members.
-//      PedersenCommitmentScheme::TestMembership is documented as the range test 0 < c < p only and is held to that.
+//      PedersenCommitmentScheme::TestMembership is held to the same predicate (since /repo 4a28817 it tests the order too).
 //
 // Regimes: tiny (F,G) = (16,8) [QR: 16, E=8] and (20,10); small (256,160); default (2048,256) / QR 512.
 // Tiers: quick = tiny, 4 sets of (16,8) + 1 of (20,10);  thorough = tiny 16+4 sets, small 8 sets, default 1 set.
@@ -557,6 +557,38 @@ static void run_elements(Subject &S, const std::string &cid)
 	}
 }
 
+// ------------------------------------------------------------------ generation under a coin budget
+// tmcg_mpz_lprime draws q once and then searches k with q*k+1 prime of the requested length; in the toy regimes an unlucky q has
+// no such k and the library generator spins forever.  That is an artefact of toy sizes, not C06's subject: the coin shim counts
+// the requests of one construction and aborts it (exception through the constructor) when the budget is exhausted; the cell is
+// then generated from the next coin stream.  Deterministic for a given VERIF_SEED.
+struct GenStuck {};
+static uint64_t gen_budget = 0;
+static bool budget_steer(unsigned char *, size_t, int, uint64_t)
+{
+	if (gen_budget && --gen_budget == 0)
+		throw GenStuck();
+	return false;
+}
+static Subject *generate(mcenv::CoinSource &cs, uint64_t party, unsigned long F, const std::function<Subject *()> &make)
+{
+	for (uint64_t attempt = 0; attempt < 200; attempt++)
+	{
+		cs.reset(mcenv::env_seed(), party + (attempt << 24));
+		cs.steer = budget_steer;
+		gen_budget = F <= 64 ? 4000 : 200000;
+		try
+		{
+			Subject *S = make();
+			gen_budget = 0;
+			return S;
+		}
+		catch (GenStuck &) { R->counters["generator_restarts"]++; }
+	}
+	gen_budget = 0;
+	return NULL;
+}
+
 // ------------------------------------------------------------------ subjects per regime
 struct Regime { const char *name; unsigned long F, G, Fqr, Eqr; int sets; };
 
@@ -631,22 +663,24 @@ int main(int argc, char **argv)
 				if (!R->mine() || !R->selected(cid)) continue;
 				if (!clssel.empty() && clssel != SELF[c]) continue;
 				if (R->out_of_time()) goto done;
-				mcenv::CoinSource cs(mcenv::env_seed(), 0x60000 + ri * 4096 + set * 64 + c);
+				mcenv::CoinSource cs(mcenv::env_seed(), 0);
 				mcenv::cur = &cs;
-				Subject *S = NULL;
-				switch (c)
-				{
-					case 0: S = mk_vtmf(rg.F, rg.G, false); break;
-					case 1: S = mk_vtmf(rg.F, rg.G, true); break;
-					case 2: S = mk_qr(rg.Fqr, rg.Eqr); break;
-					case 3: S = mk_pedcom(3, rg.F, rg.G, false); break;
-					case 4: S = mk_pedcom(3, rg.F, rg.G, true); break;
-					case 5: S = mk_trapdoor(rg.F, rg.G); break;
-					case 6: S = mk_vrhe(rg.F, rg.G); break;
-					case 7: S = mk_eotp(rg.F, rg.G); break;
-					case 8: S = mk_skc(3, le, rg.F, rg.G); break;
-					default: { Ctx ctx = make_ctx(rg.F, rg.G, false); S = mk_vsshe(ctx, 3, le, rg.F, rg.G); break; }
-				}
+				Subject *S = generate(cs, 0x60000 + ri * 4096 + set * 64 + c, rg.F, [&]() -> Subject * {
+					switch (c)
+					{
+						case 0: return mk_vtmf(rg.F, rg.G, false);
+						case 1: return mk_vtmf(rg.F, rg.G, true);
+						case 2: return mk_qr(rg.Fqr, rg.Eqr);
+						case 3: return mk_pedcom(3, rg.F, rg.G, false);
+						case 4: return mk_pedcom(3, rg.F, rg.G, true);
+						case 5: return mk_trapdoor(rg.F, rg.G);
+						case 6: return mk_vrhe(rg.F, rg.G);
+						case 7: return mk_eotp(rg.F, rg.G);
+						case 8: return mk_skc(3, le, rg.F, rg.G);
+						default: { Ctx ctx = make_ctx(rg.F, rg.G, false); return mk_vsshe(ctx, 3, le, rg.F, rg.G); }
+					}
+				});
+				if (!S) { harness_error("could not generate " + cid); mcenv::cur = nullptr; continue; }
 				emit_ref_ggen(*S, cid);
 				run_cell(S, cid, what);
 				mcenv::cur = nullptr;
@@ -662,10 +696,13 @@ int main(int argc, char **argv)
 					if (!R->mine() || !R->selected(cid)) continue;
 					if (!clssel.empty() && clssel != cname) continue;
 					if (R->out_of_time()) goto done;
-					mcenv::CoinSource cs(mcenv::env_seed(), 0x68000 + ri * 4096 + set * 64 + c * 2 + canon);
+					mcenv::CoinSource cs(mcenv::env_seed(), 0);
 					mcenv::cur = &cs;
-					Ctx ctx = make_ctx(rg.F, rg.G, canon != 0);
-					Subject *S = cc.mk(ctx, rg.F, rg.G);
+					Subject *S = generate(cs, 0x68000 + ri * 4096 + set * 64 + c * 2 + canon, rg.F, [&]() -> Subject * {
+						Ctx ctx = make_ctx(rg.F, rg.G, canon != 0);
+						return cc.mk(ctx, rg.F, rg.G);
+					});
+					if (!S) { harness_error("could not generate " + cid); mcenv::cur = nullptr; continue; }
 					emit_ref_ggen(*S, cid);
 					run_cell(S, cid, what);
 					mcenv::cur = nullptr;
